@@ -25,6 +25,10 @@ OVERLAYS = [
     ("src/chacha/mod.rs", "verif_chacha_equiv", "chacha_equiv.rs", X86SSE2, "crate::chacha"),
     ("src/chacha/reference.rs", "verif_ref", "chacha_ref.rs", None, "crate::chacha::reference_verif"),
     ("src/chacha/sse2.rs", "verif_sse2", "chacha_sse2.rs", None, "crate::chacha::sse2"),
+    ("src/chacha20.rs", "verif_ctx", "chacha20_ctx.rs", None, "crate::chacha20"),
+    ("src/cryptoutil.rs", "verif_cu", "cryptoutil.rs", None, "crate::cryptoutil"),
+    ("src/salsa20.rs", "verif_salsa", "salsa.rs", None, "crate::salsa20"),
+    ("src/drg/chacha.rs", "verif_drg", "drg.rs", None, "crate::drg::chacha"),
 ]
 
 # harness modules that sit below a private module are re-exported from the nearest crate-visible ancestor so that the
@@ -57,7 +61,14 @@ def scan_harnesses(path):
         uw = re.search(r"kani::unwind\((\d+)\)", attrs)
         stubs = re.findall(r"kani::stub\(([^)]*)\)", attrs)
         cfgs = re.findall(r"^[ \t]*#\[cfg\(([^\n]*)\)\]\s*$", attrs, re.M)
-        res.append(dict(name=name, should_panic="kani::should_panic" in attrs,
+        uws = []
+        for um in re.finditer(r'verif-unwindset:\s*([^"]*)"', attrs):
+            for item in um.group(1).split(","):
+                item = item.strip()
+                if item:
+                    k, v = item.rsplit("=", 1)
+                    uws.append((k.strip(), int(v)))
+        res.append(dict(name=name, should_panic="kani::should_panic" in attrs, unwindset=uws,
                         unwind=int(uw.group(1)) if uw else None,
                         stubs=[s.strip() for s in stubs], cfg=cfgs))
     return res
